@@ -226,7 +226,7 @@ impl StringPool {
             self.strings.iter_mut().enumerate()
         {
             if *refcount == 0 {
-                debug_assert_eq!(st, "");
+                // (A malformed file may leave text in an unused entry.)
                 *st = string;
                 *refcount = 1;
                 return StringRef((index + 1) as i32);
@@ -251,19 +251,17 @@ impl StringPool {
         StringRef(self.strings.len() as i32)
     }
 
-    /// Decrements the refcount of a string in the pool.
+    /// Decrements the refcount of a string in the pool.  References that do
+    /// not name a live entry (which can only come from a malformed file, see
+    /// `get()`) are ignored.
     pub fn decref(&mut self, string_ref: StringRef) {
         let index = string_ref.index();
         if index >= self.strings.len() {
-            panic!(
-                "decref: string_ref {} invalid, pool has only {} entries",
-                string_ref.number(),
-                self.strings.len()
-            );
+            return;
         }
         let (ref mut string, ref mut refcount) = self.strings[index];
         if *refcount < 1 {
-            panic!("decref: string refcount is already zero");
+            return;
         }
         self.is_modified = true;
         *refcount -= 1;
